@@ -202,6 +202,12 @@ class Uniq:
         return "Z" + s
 
 
+def hb(rng):
+    """a header byte (section version / sub-type): boundary values are boosted"""
+    r = rng.random()
+    return 0 if r < 0.07 else (255 if r < 0.11 else rng.randrange(256))
+
+
 def gen_compid(rng, creator):
     r = rng.random()
     if creator == "H":
@@ -238,7 +244,7 @@ def gen_ph(rng, u, creator):
         bmcid = rng.choice([0, 0xFFFFFFFF])
     while bmcid in (eid, plid):
         bmcid = rng.randrange(1 << 32)
-    return dict(ver=rng.randrange(256), sub=rng.randrange(256), comp=gen_compid(rng, creator),
+    return dict(ver=hb(rng), sub=hb(rng), comp=gen_compid(rng, creator),
                 create_raw=craw, create_disp=cdisp, commit_raw=mraw, commit_disp=mdisp,
                 res0=rng.choice([0, rng.randrange(256)]), res1=rng.choice([0, rng.randrange(256)]),
                 bmcid=bmcid, cssver=rng.choice([0, 1, rng.randrange(1 << 64), (1 << 64) - 1, rng.randrange(1 << 16)]),
@@ -274,7 +280,7 @@ def gen_uh(rng, creator, sev=None, flags=None):
     while t2 == t1:
         t2 = rng.randrange(256)
     states = (rng.choice([0, rng.randrange(1 << 16)]) << 16) | (t2 << 8) | t1
-    return dict(ver=rng.randrange(256), sub=rng.randrange(256), comp=gen_compid(rng, creator),
+    return dict(ver=hb(rng), sub=hb(rng), comp=gen_compid(rng, creator),
                 subsystem=coded(tables.subsystemValues), scope=coded(tables.eventScopeValues), sev=sev,
                 etype=coded(tables.eventTypeValues), res=rng.choice([0, rng.randrange(1 << 32)]),
                 domain=rng.randrange(256), vector=rng.randrange(256), flags=flags, states=states)
@@ -344,8 +350,10 @@ class Callout:
         return e
 
 
-def fieldtext(rng, u, width, full=False, alphabet=None):
-    """Unique printable text for a fixed-width field (token + filler), NUL-padded when short."""
+def fieldtext(rng, u, width, full=False, alphabet=None, may_be_empty=True):
+    """Unique printable text for a fixed-width field (token + filler), NUL-padded when short; sometimes empty (all NULs)."""
+    if may_be_empty and not full and rng.random() < 0.04:
+        return ""
     tok = u.token(min(width, 6))
     n = width if full or rng.random() < 0.5 else rng.randrange(len(tok), width + 1)
     s = tok + rtext(rng, n - len(tok), alphabet)
@@ -459,7 +467,7 @@ def gen_src(rng, u, primary, creator, srctype=None, refcode=None, ncallouts=None
         sub = u8(0xC0) + u8(rng.choice([0, rng.randrange(256)])) + u16((4 + len(cb)) // 4) + cb
     body = u8(srcver) + u8(flags) + u8(rng.choice([0, rng.randrange(256)])) + u8(wc) + u16(rng.choice([0, 0xFFFF])) + \
         u16(72 + len(sub)) + b"".join(u32(w) for w in words) + ascii32.encode("ascii") + sub
-    s = Sec(b"PS" if primary else b"SS", rng.randrange(256), rng.randrange(256), gen_compid(rng, creator), body, "SRC",
+    s = Sec(b"PS" if primary else b"SS", hb(rng), hb(rng), gen_compid(rng, creator), body, "SRC",
             dict(srcver=srcver, flags=flags, wc=wc, words=words, ascii=ascii32, refcode=ascii32.strip(),
                  type=ascii32[0:2], callouts=callouts, has_sub=has_sub, creator=creator))
     tf = lambda b: "True" if b else "False"
@@ -498,7 +506,7 @@ def gen_eh(rng, u, creator, symlen=None):
         sym = clean_edges(u.token(min(n, 6)) + rtext(rng, max(0, n - 6), ALNUM + "_", 0))
     body = padded(mt, 8) + padded(sn, 12) + padded(fw, 16) + padded(sfw, 16) + u32(rng.choice([0, rng.randrange(1 << 32)])) + \
         raw + bytes([rng.choice([0, rng.randrange(256)]) for _ in range(3)]) + u8(symlen) + padded(sym, symlen)
-    s = Sec(b"EH", rng.randrange(256), rng.randrange(256), gen_compid(rng, creator), body, "EH",
+    s = Sec(b"EH", hb(rng), hb(rng), gen_compid(rng, creator), body, "EH",
             dict(mt=mt, sn=sn, fw=fw, sfw=sfw, symlen=symlen, sym=sym))
     s.expect = [("Section Version", "dec", s.ver), ("Sub-section type", "dec", s.sub),
                 ("Created by", "compid", (s.comp, creator)),
@@ -512,7 +520,7 @@ def gen_eh(rng, u, creator, symlen=None):
 def gen_mt(rng, u, creator):
     mt = fieldtext(rng, u, 8, alphabet=ALNUM + "-")
     sn = fieldtext(rng, u, 12)
-    s = Sec(b"MT", rng.randrange(256), rng.randrange(256), gen_compid(rng, creator), padded(mt, 8) + padded(sn, 12), "MT",
+    s = Sec(b"MT", hb(rng), hb(rng), gen_compid(rng, creator), padded(mt, 8) + padded(sn, 12), "MT",
             dict(mt=mt, sn=sn))
     s.expect = [("Section Version", "dec", s.ver), ("Sub-section type", "dec", s.sub),
                 ("Created by", "compid", (s.comp, creator)),
@@ -540,7 +548,7 @@ def gen_lp(rng, u, creator, ntargets=None, namelen=None):
     logid = rng.randrange(1 << 32)
     body = u16(prim) + u8(namelen) + u8(ntargets) + u32(logid) + padded(name, namelen) + \
         b"".join(u16(t) for t in targets) + (b"\0\0" if ntargets % 2 else b"")
-    s = Sec(b"LP", rng.randrange(256), rng.randrange(256), gen_compid(rng, creator), body, "LP",
+    s = Sec(b"LP", hb(rng), hb(rng), gen_compid(rng, creator), body, "LP",
             dict(prim=prim, namelen=namelen, name=name, targets=targets, logid=logid))
     s.expect = [("Section Version", "dec", s.ver), ("Sub-section type", "dec", s.sub),
                 ("Created by", "compid", (s.comp, creator)),
@@ -579,7 +587,7 @@ def gen_payload(rng, u, n=None):
 def sec_generic(rng, u, sid, payload=None):
     """hexdump-only kinds and unknown ids: body is the payload."""
     p = gen_payload(rng, u) if payload is None else payload
-    s = Sec(sid, rng.randrange(256), rng.randrange(256), rng.randrange(0x10000), p, "GEN")
+    s = Sec(sid, hb(rng), hb(rng), rng.choice([0, 0xFFFF, rng.randrange(0x10000)]) if rng.random() < 0.1 else rng.randrange(0x10000), p, "GEN")
     s.payload = p
     s.expect = [("Section Version", "dec", s.ver), ("Sub-section type", "dec", s.sub), ("Created by", "hex", s.comp),
                 ("Data", "dump", p)]
